@@ -1,5 +1,6 @@
 import asyncio
 import functools as ft
+import inspect
 import itertools as it
 import json
 import logging
@@ -25,6 +26,23 @@ def extract_error_codes(response: AbstractResponse) -> Tuple[int, ...]:
         return (response.error.code,) if response.error else tuple(r.error.code if r.error else 0 for r in response)
     else:
         return (response.error.code if response.error else 0,)
+
+
+def pop_positional_only(method: MethodType, arguments: Dict[str, Any], exclude: Iterable[str] = ()) -> List[Any]:
+    """
+    Removes positional-only parameters from the bound arguments and returns their values
+    in declaration order (they can not be passed to the method by name). An omitted parameter
+    followed by a provided one is filled with its default value.
+    """
+
+    params = [
+        param for param in inspect.signature(method).parameters.values()
+        if param.kind is param.POSITIONAL_ONLY and param.name not in exclude
+    ]
+    while params and params[-1].name not in arguments:
+        params.pop()
+
+    return [arguments.pop(param.name, param.default) for param in params]
 
 
 class Method:
@@ -64,6 +82,10 @@ class Method:
                 method_args.append(context)
             else:
                 method_kwargs[self.context] = context
+
+        method_args.extend(
+            pop_positional_only(self.method, method_kwargs, exclude=(self.context,) if self.positional else ()),
+        )
 
         return ft.partial(self.method, *method_args, **method_kwargs)
 
@@ -109,8 +131,9 @@ class ViewMethod(Method):
         method = getattr(view, self.method_name)
 
         method_params = self.validator.validate_method(method, params, **self.validator_args)
+        method_args = pop_positional_only(method, method_params)
 
-        return ft.partial(method, **method_params)
+        return ft.partial(method, *method_args, **method_params)
 
     def copy(self, **kwargs: Any) -> 'ViewMethod':
         cls_kwargs = dict(name=self.name, context=self.context, positional=self.positional)
